@@ -2066,6 +2066,10 @@ func (p *Parser) evaluateSingleExpression(ctx context) (Expression, error) {
 		if err != nil {
 			return nil, err
 		}
+		// Only a single value can be grouped.
+		if dataType := child.ValueType().DataType(); dataType == DATA_TYPE_UNKNOWN || dataType == DATA_TYPE_MULTIPLE {
+			return nil, p.atError("a group requires a single value", token)
+		}
 		expr = Group{
 			child: child,
 		}
